@@ -189,6 +189,12 @@ def run_job(job):
     import kdriver as K
     u, opts = job['u'], job.get('opts', {})
     budget = job.get('budget', 30)
+    other = None
+    if job.get('pre_u'):      # the OTHER configuration is also CREATED first (tables shared per kind of algebra are filled by the first one)
+        try:
+            other = K.make_algebra(job['pre_u'], **algebra_options(opts))
+        except Exception:   # noqa: BLE001
+            other = None
     alg = K.make_algebra(u, **algebra_options(opts))
     events, skipped = [], []
     signal.signal(signal.SIGALRM, _alarm)
@@ -197,7 +203,8 @@ def run_job(job):
     # configuration of the same dimension
     if job.get('pre_u'):
         try:
-            other = K.make_algebra(job['pre_u'], **algebra_options(opts))
+            if other is None:
+                other = K.make_algebra(job['pre_u'], **algebra_options(opts))
             for _, (op, keylists, params) in cases:
                 if op in ('law', 'law3', 'lawrp'):
                     continue
